@@ -57,8 +57,17 @@ func (plainProvider) AcquireZlibWriter() *zlib.Writer {
 }
 func (plainProvider) ReleaseZlibWriter(w *zlib.Writer) {}
 
+// recyclingProvider is a custom provider that takes ownership on release: it re-targets the
+// released writer at once (legitimate: after Release the object belongs to the provider).
+type recyclingProvider struct{ plainProvider }
+
+func (recyclingProvider) ReleaseGzipWriter(w *gzip.Writer) { w.Reset(io.Discard) }
+func (recyclingProvider) ReleaseZlibWriter(w *zlib.Writer) { w.Reset(io.Discard) }
+
 func providerFor(name string) restful.CompressorProvider {
 	switch name {
+	case "recycling":
+		return recyclingProvider{}
 	case "bounded0":
 		return restful.NewBoundedCachedCompressors(0, 0)
 	case "bounded1":
@@ -125,7 +134,7 @@ var (
 	c07Entries   = []string{"ServeHTTP", "Dispatch", "Handle", "HandleWithFilter"}
 	c07Routes    = []string{"unset", "off", "on"}
 	c07AEs       = []string{"-", "gzip", "deflate", "gzip, deflate", "deflate, gzip", "identity", "br", "GZIP", "gzip;q=0.5, deflate;q=1.0", "br, deflate;q=0.1", "x-gzip", "*"}
-	c07Providers = []string{"syncpool", "bounded0", "bounded1", "bounded4", "custom"}
+	c07Providers = []string{"syncpool", "bounded0", "bounded1", "bounded4", "custom", "recycling"}
 	c07Outcomes  = []string{"ok", "404", "405", "406", "415", "panic-before", "panic-after"}
 )
 
@@ -154,7 +163,7 @@ func valid07(k *c07Case) bool {
 
 func c07(ctx *core.Ctx) {
 	quietLogs()
-	ctx.Rule("matrix: entry {ServeHTTP, Dispatch, Handle, HandleWithFilter} x container switch x route override {unset, off, on} x Accept-Encoding (12 values) x pre-set Content-Encoding x provider {sync.Pool, bounded 0/1/4, custom} x outcome {ok, 404, 405, 406, 415, panic before output, panic after partial output} x writer already a CompressingResponseWriter x payload {0, 1, 100, 70000 (1 MB thorough)} in random chunks across a container filter (before/after) and the handler; custom or default error/recover writers. quick: seeded random sample of cells; thorough: the full product of the switch dimensions, three payload/chunkings per cell. Oracle per response: applied coding => label in {gzip,deflate}, Accept-Encoding mentions it, encoding enabled for the request, complete-stream decode == logged bytes; else body == logged bytes and no Content-Encoding added. Non-trivial = a response with a non-empty body or an applied coding; distinct by the switch cell (entry, cont, route, AE, preset, outcome, prewrapped, applied).")
+	ctx.Rule("matrix: entry {ServeHTTP, Dispatch, Handle, HandleWithFilter} x container switch x route override {unset, off, on} x Accept-Encoding (12 values) x pre-set Content-Encoding x provider {sync.Pool, bounded 0/1/4, custom non-pooling, custom recycling-on-release} x outcome {ok, 404, 405, 406, 415, panic before output, panic after partial output} x writer already a CompressingResponseWriter x payload {0, 1, 100, 70000 (1 MB thorough)} in random chunks across a container filter (before/after) and the handler; custom or default error/recover writers. quick: seeded random sample of cells; thorough: the full product of the switch dimensions, three payload/chunkings per cell. Oracle per response: applied coding => label in {gzip,deflate}, Accept-Encoding mentions it, encoding enabled for the request, complete-stream decode == logged bytes; else body == logged bytes and no Content-Encoding added. Non-trivial = a response with a non-empty body or an applied coding; distinct by the switch cell (entry, cont, route, AE, preset, outcome, prewrapped, applied).")
 	ctx.Assume("the property does not demand that a coding is applied when enabled; evidence reports how many responses were encoded",
 		"with the default recover handler the stack text is not predictable: prefix and stream completeness are judged")
 	defer restful.SetCompressorProvider(restful.NewSyncPoolCompessors())
